@@ -277,4 +277,23 @@ theorem C07_array_not_a_position_path (xs : List V) (k : Sc) (p : List Sc) (hi :
 
 example : augGet (.arr [.sc (.int 10), .sc (.int 20)]) (.str "nan".toList) = none := by decide
 
+/-- **A scalar has no members**: any step other than `size` on a number, string, boolean or date
+fails — so a path that goes on after a counter (an integer that only `increment` / `decrement`
+created) does not silently return the counter. -/
+theorem C07_scalar_no_members (s : Sc) (k : Sc) (p : List Sc) (h : k.render ≠ "size".toList) :
+    augGet (.sc s) k = none ∧ tryFind (.sc s) (k :: p) = none := by
+  have h1 : augGet (.sc s) k = none := by
+    simp only [augGet]
+    simp at h ⊢
+    exact h
+  exact ⟨h1, by simp [tryFind, h1]⟩
+
+/-- a counter is read through the same step-by-step resolution as every other binding: the frame
+that holds it hands the rest of the path to the value -/
+theorem C07_counter_paths_resolve (c : Obj) (below : Stack) (k : Sc) (p : List Sc)
+    (hb : objContains c k.render = true) :
+    Stack.tryGet (.index c :: below) (k :: p) = tryFind (.obj c) (k :: p) ∧
+    Stack.get (.index c :: below) (k :: p) = find (.obj c) (k :: p) := by
+  simp [Stack.tryGet, Stack.get, pathKey, hb]
+
 end Liquid.C07
